@@ -212,7 +212,8 @@ func (fr *Frame) checkWrite(in ssa.Instruction, ref, off, n *Term) {
 	if ok == True {
 		return
 	}
-	alts := []*Term{ok, Le(n, IntLit(0))} // a write of zero cells writes nothing
+	// a write of zero cells writes nothing; a callee frame target reached through nil names no object
+	alts := []*Term{ok, Le(n, IntLit(0)), Eq(ref, IntLit(0))}
 	top := fr.topFrame()
 	env := top.contractEnv(top.params, nil, top.entry, top.entry)
 	for _, m := range c.Modifies {
